@@ -26,7 +26,7 @@
 // Well-formed states (`wf`): every stored balance < limit; the schedule lists
 // every bucket id exactly once, sorted by instant; `now` is not before any entry
 // (the statement quantifies over non-decreasing timestamps).
-// Bound: <= 2 buckets over 3 identities; timestamps whole seconds within 2^TBITS s of
+// Bound: <= 2 buckets over 3 identities; timestamps whole microseconds within 2^TBITS us of
 // an arbitrary base; interval 1..2^IBITS s; limit over all u32 >= 1.
 
 use std::net::Ipv4Addr;
@@ -160,7 +160,7 @@ impl VerifCheckedDiv for u128 {
     }
 }
 
-const TBITS: u32 = 10; // (2^10 s) * 10^6 us stays below DIV_BOUND
+const TBITS: u32 = 10; // (2^10 us) * 10^3 ns stays below DIV_BOUND (and below 10^9: no carry into seconds)
 const IBITS: u32 = 6;
 
 fn base() -> Instant {
@@ -170,7 +170,7 @@ fn base() -> Instant {
     z + Duration::new(s as u64, 0)
 }
 fn at(b: Instant, t: u32) -> Instant {
-    b + Duration::new(t as u64, 0)
+    b + Duration::new(0, t * 1000)
 }
 fn any_time() -> u32 {
     let t: u32 = kani::any();
@@ -187,7 +187,7 @@ fn any_id() -> u8 {
 #[derive(Clone, Copy)]
 struct Spec {
     limit: u32,
-    interval: u32, // seconds
+    interval: u32, // microseconds
     n: usize,
     id: [u8; 2],
     t: [u32; 2],
@@ -215,7 +215,7 @@ fn build(s: &Spec, b: Instant) -> FragLimiter<u8> {
     // same initial state as GenericRateLimiter::new (which also asserts a non-zero interval)
     let mut l = FragLimiter::<u8> {
         limit: NonZeroU32::new(s.limit).unwrap().into(),
-        interval: Duration::new(s.interval as u64, 0),
+        interval: Duration::new(0, s.interval * 1000),
         refill_schedule: Fifo::new(),
         buckets: Default::default(),
     };
@@ -263,7 +263,8 @@ fn spec_index(s: &Spec, id: u8) -> usize {
 ///   not yet due (now - t < interval):  r == bal, no division performed for it;
 ///   due:  the i-th division (buckets are refilled in schedule order and the due ones
 ///         are a prefix of the sorted schedule) was applied to exactly
-///         (elapsed, interval) -- here in microseconds, as the code computes --
+///         (elapsed, interval) -- in nanoseconds, the full resolution of Duration; the
+///         harness's abstract time unit is the microsecond --
 ///         and r == min(limit, bal + quotient).
 /// With the division contract (quotient = floor) this is: r = min(limit, bal +
 /// floor(elapsed/interval)), in particular at most floor(elapsed/interval) tokens are
@@ -275,8 +276,8 @@ fn refilled_ok(s: &Spec, i: usize, now: u32, r: u32) -> bool {
     }
     let (a, b, q) = div_log(i);
     div_calls() > i
-        && a == (d as u128) * 1_000_000
-        && b == (s.interval as u128) * 1_000_000
+        && a == (d as u128) * 1_000
+        && b == (s.interval as u128) * 1_000
         && r as u64 == (s.bal[i] as u64 + q as u64).min(s.limit as u64)
         && q >= 1
 }
@@ -535,7 +536,7 @@ fn refill_gain_at_most_floor_of_elapsed_over_interval_ns() {
     kani::cover!(gain == 0);
     kani::assert(
         gain * (interval_ns as u64) <= (now - t) as u64,
-        "C48: refill added more than floor(elapsed/interval) tokens (sub-microsecond parts are truncated by as_micros)",
+        "C48: refill added more than floor(elapsed/interval) tokens",
     );
 }
 
